@@ -222,13 +222,14 @@ def _coqc_shard(path):
     return rc, out
 
 
-def run_shards(pid, corr_mod, items):
+def run_shards(pid, corr_mod, items, shard=None):
     """items: list of (case_index, coq_term).  Returns (n_shards, n_ok,
     bad_case_indices, logs)."""
     d = os.path.join(COQ, "cases", "%s_%d" % (pid, os.getpid()))
     shutil.rmtree(d, ignore_errors=True)
     os.makedirs(d)
-    shards = [items[i:i + SHARD] for i in range(0, len(items), SHARD)]
+    shard = shard or SHARD
+    shards = [items[i:i + shard] for i in range(0, len(items), shard)]
     paths = []
     for k, sh in enumerate(shards):
         p = os.path.join(d, "shard_%s_%d.v" % (pid, k))
@@ -398,7 +399,7 @@ def main(argv=None):
             corr["bad"] = [-1]
             corr["shards"] = 1
         elif items:
-            ns, nok, bad, logs = run_shards(pid, "Corr." + pid, items)
+            ns, nok, bad, logs = run_shards(pid, "Corr." + pid, items, getattr(mod, "SHARD", None))
             corr = dict(shards=ns, ok=nok, bad=bad, logs=logs)
 
     # ---- 5. classify
